@@ -277,15 +277,15 @@ def adev_outcomes(nodes):
                 return otree.discrete_outcomes(site, max_joint=64)
             if cls == "CategoricalEnumParallel":
                 return otree.discrete_outcomes(gfi_site(site, "categorical"), max_joint=64)
-            if cls == "NormalREPARAM" or "_normal_keyful" in fname:
+            if cls == "MultivariateNormalDiagREPARAM":
+                name = "multivariatenormal"
+                args = [args[0], np.apply_along_axis(np.diag, -1, args[1] ** 2) if args[1].ndim else np.diag(args[1] ** 2)]
+            elif cls.startswith("MultivariateNormal") or "multivariate" in fname:
+                name = "multivariatenormal"
+            elif cls == "NormalREPARAM" or "_normal_keyful" in fname:
                 name = "normal"
             elif cls == "UniformREPARAM" or "uniform" in fname:
                 name = "uniform"
-            elif cls == "MultivariateNormalREPARAM" or "multivariate" in fname:
-                name = "multivariatenormal"
-            elif cls == "MultivariateNormalDiagREPARAM":
-                name = "multivariatenormal"
-                args = [args[0], np.apply_along_axis(np.diag, -1, args[1] ** 2) if args[1].ndim else np.diag(args[1] ** 2)]
             elif "geometric" in fname:
                 name = "geometric"
                 site = dict(site)
@@ -481,6 +481,27 @@ def real_checks(case, prog, th, want, wgrad, viol, sig, probes):
             return 1
     if not all(np.isfinite(float(x)) for x in g):
         viol.append(V("undefined", "finite", f"{cfg}: grad_estimate not finite", **sig))
+        return 1
+    sites = case["sites"] + ([case["cond_site"]] if case.get("cond_site") else [])
+    if "flip_mvd" in sites[:-1] and "uniform_reinforce" not in sites and not viol:
+        # a measure-valued site evaluates the rest of the program through the *pure* continuation, which
+        # draws downstream ADEV sites with their keyed samplers (never consulted by the SCRIPTED trees, whose
+        # scripts answer from the site's parameters): REAL two-stage test of the mean gradient
+        probes["real_mean_gradient"] = 1
+        f = jax.jit(jax.vmap(gpjax.seed(g_fn), in_axes=(0, None, None)))
+        for stage, (kk, m) in enumerate(((case["key"] + 11, 3000), (case["key"] + 12, 24000))):
+            gs = np.stack([np.asarray(x, dtype=np.float64) for x in f(jax.random.split(jax.random.key(kk), m), th[0], th[1])], axis=1)
+            mean, se = gs.mean(axis=0), gs.std(axis=0, ddof=1) / math.sqrt(m) + 1e-12
+            z = np.abs(mean - np.asarray(wgrad)) / se
+            bad = (z > 6.0) & (np.abs(mean - np.asarray(wgrad)) > 3e-4 * (1 + np.abs(np.asarray(wgrad))))
+            if not bad.any():
+                break
+            if stage == 1:
+                i = int(np.argmax(bad))
+                viol.append(V("biased_gradient", "gradient_estimate_is_unbiased",
+                              f"REAL: mean grad_estimate[{i}] over {m} keys = {mean[i]:.5f} +- {se[i]:.5f}, exact {wgrad[i]:.5f} "
+                              f"(z = {z[i]:.1f}, after z > 6 on a first batch)", **sig))
+        return 3
     return 1
 
 
